@@ -1275,3 +1275,126 @@ def r_aliasrebind(E):
     res.samples = [{"embedded_positive_examples_recognised": 1, "embedded_twins_silent": True}]
     res.floor = 30
     return res
+
+
+# ---------------------------------------------------------------------------------------------- R-ONESHOT
+_OS_POSITIVE = '''
+from itertools import chain
+class Update:
+    def __init__(self):
+        self.pairs = self.iter_pairs()
+        self.set()
+        self.reset()
+    def iter_pairs(self):
+        return chain(zip(self.a, self.b), ((c[0], c[1]) for c in self.changes))
+    def set(self):
+        for old, new in self.pairs:
+            old.replace(new)
+    def reset(self):
+        for old, new in self.pairs:
+            new.replace(old)
+'''
+_OS_NEGATIVE = '''
+from itertools import chain
+class Update:
+    def __init__(self):
+        self.pairs = list(self.iter_pairs())
+        self.once = zip(self.a, self.b)
+        self.set()
+        self.reset()
+    def iter_pairs(self):
+        return chain(zip(self.a, self.b), ((c[0], c[1]) for c in self.changes))
+    def set(self):
+        for old, new in self.pairs:
+            old.replace(new)
+    def reset(self):
+        for old, new in self.pairs:
+            new.replace(old)
+    def first(self):
+        return next(self.once)
+'''
+_ITER_CALLS = {"zip", "map", "filter", "chain", "chain.from_iterable", "itertools.chain", "itertools.chain.from_iterable",
+               "iter", "reversed", "enumerate", "islice", "itertools.islice", "zip_longest", "itertools.zip_longest"}
+
+
+def oneshot_attributes(tree):
+    """[(class, attribute, assignment, read sites)]: `self.X = <iterator>` (zip / map / chain / a generator expression, or a
+    method of the class that returns one or yields) read by iteration at two places or more, or inside a loop: the first
+    walk exhausts it, every later one sees nothing"""
+    out = []
+    for cls in [n for n in ast.walk(tree) if isinstance(n, ast.ClassDef)]:
+        meths = {f.name: f for f in cls.body if isinstance(f, ast.FunctionDef)}
+
+        def is_iter(e, depth=0):
+            if isinstance(e, ast.GeneratorExp):
+                return True
+            if isinstance(e, ast.Call):
+                if norm(e.func) in _ITER_CALLS:
+                    return True
+                if isinstance(e.func, ast.Attribute) and isinstance(e.func.value, ast.Name) and e.func.value.id in ("self", "cls") \
+                        and e.func.attr in meths and depth < 3:
+                    m = meths[e.func.attr]
+                    own = [n for n in ast.walk(m) if not isinstance(n, (ast.FunctionDef, ast.Lambda)) or n is m]
+                    if any(isinstance(n, (ast.Yield, ast.YieldFrom)) for n in own):
+                        return True
+                    rets = [r.value for r in own if isinstance(r, ast.Return) and r.value is not None]
+                    return bool(rets) and all(is_iter(r, depth + 1) for r in rets)
+            return False
+        for f in meths.values():
+            for a in ast.walk(f):
+                if not (isinstance(a, ast.Assign) and is_iter(a.value)):
+                    continue
+                for t in a.targets:
+                    if not (isinstance(t, ast.Attribute) and isinstance(t.value, ast.Name) and t.value.id == "self"):
+                        continue
+                    walks = []
+                    for g in meths.values():
+                        for n in ast.walk(g):
+                            it = None
+                            if isinstance(n, (ast.For, ast.comprehension)):
+                                it = n.iter
+                            elif isinstance(n, ast.Call) and norm(n.func) in ("list", "tuple", "sorted", "set", "sum", "len", "reversed") and n.args:
+                                it = n.args[0]
+                            elif isinstance(n, ast.Call) and n.args and any(norm(x) == f"self.{t.attr}" for x in n.args):
+                                it = next(x for x in n.args if norm(x) == f"self.{t.attr}")   # handed to something that walks it
+                            if it is not None and norm(it) == f"self.{t.attr}":
+                                walks.append(n)
+                    in_loop = False
+                    for w in walks:
+                        x = getattr(w, "_parent", None)
+                        while x is not None and not isinstance(x, ast.FunctionDef):
+                            if isinstance(x, (ast.For, ast.While)) and x is not w:
+                                in_loop = True
+                            x = getattr(x, "_parent", None)
+                    if len(walks) >= 2 or in_loop:
+                        out.append((cls, t.attr, a, walks))
+    return out
+
+
+@rule("R-ONESHOT")
+def r_oneshot(E):
+    pm = E.pm
+    res = RuleResult("R-ONESHOT", "an attribute that is walked more than once holds a list, not a one-shot iterator (zip, map, "
+                                  "chain, a generator): the first walk would exhaust it and the later ones — switching a "
+                                  "simulation off again — would silently do nothing")
+    for mod, (rel, tree, src) in sorted(pm.modules.items()):
+        res.instances += len([n for n in ast.walk(tree) if isinstance(n, ast.Assign) and any(
+            isinstance(t, ast.Attribute) and norm(t.value) == "self" for t in n.targets)])
+        for cls, attr, a, walks in oneshot_attributes(tree):
+            fn = a
+            while fn is not None and not isinstance(fn, ast.FunctionDef):
+                fn = getattr(fn, "_parent", None)
+            q = f"{cls.name}.{fn.name}" if fn is not None else cls.name
+            res.findings.append(Finding(
+                "R-ONESHOT", f"{rel}:{q} :: self.{attr}",
+                f"{q} stores an iterator in self.{attr} (`{norm(a.value)[:60]}`) and the class walks self.{attr} at "
+                f"{len(walks)} places (lines {sorted({w.lineno if hasattr(w, 'lineno') else a.lineno for w in walks})}): only the "
+                f"first walk sees the elements, the others run over nothing", rel, a.lineno, q, {"clauses": _area(rel)}))
+    pos = oneshot_attributes(set_parents(ast.parse(_OS_POSITIVE)))
+    neg = oneshot_attributes(set_parents(ast.parse(_OS_NEGATIVE)))
+    if len(pos) != 1 or neg:
+        raise AnalysisError(f"R-ONESHOT: embedded examples: {len(pos)} of 1 positive recognised, {len(neg)} false reports")
+    res.instances += 1
+    res.samples = [{"embedded_positive_examples_recognised": 1, "embedded_twins_silent": True}]
+    res.floor = 100
+    return res
